@@ -20,11 +20,15 @@ tie    : (a) tapkee_internal::is_connected called directly on explicit graphs â€
          (c) recursion replay: the lists find_neighbors(k_j, false) for every k_j = min(k*2^j, N-1) are fed as a
          table to the extracted find_neighbors: it must stop at the same k_j as find_neighbors(k, true), whose
          result must be that table entry (ties included, no reference search involved);
-         (d) thorough tier: the real Isomap on the same point sets returns finite coordinates.
+         (d) public API only (harness/c03_api.cpp, names no internal routine): Isomap and Landmark Isomap with
+         check_connectivity on, on point sets whose requested-k graph is mostly NOT strongly connected: must not
+         throw, coordinates finite; a failure is attributed to unreachability when the same call with k = N-1
+         succeeds.  When the internal harness no longer compiles this stream becomes the search phase.
 search : all 1-D integer point sets with <= 9 points from 0..12, k = 1..3, both orders, through the real
          find_neighbors, spec on its output (model-guided: sets whose exact k-graph is reachable from one end
          but not strongly connected go first); hits are confirmed on the real geodesic matrix / Isomap.
 """
+import concurrent.futures
 import hashlib
 import itertools
 import json
@@ -45,7 +49,8 @@ TRUSTED = [
     "indices modelled as nat (negative / out-of-range entries are outside the theorems; wf is checked by the "
     "extracted wf_b on every graph the implementation returns)",
     "extraction (ExtrOcamlBasic only) + OCaml 4.13.1 + coq/extract/c03_driver.ml (parsing/printing)",
-    "harness/c03.cpp (parsing, L1 distance callback on integer points, printing)",
+    "harness/c03.cpp (parsing, L1 distance callback on integer points, printing); harness/c03_api.cpp (public API "
+    "only: tapkee::with(...).withDistance(...).embedUsing(...), built without sanitizers at -O0)",
     "finiteness of geodesics is linked to reachability by the specification is_geodesic (Conn_Spec.v); that "
     "tapkee's Dijkstra meets it is property C04",
 ]
@@ -758,11 +763,124 @@ def shrink_points(ctx, exe, mexe, case):
     return dict(case, pts=small)
 
 
+
+# ----------------------------------------------------------------------------- public API stream
+API_METHODS = {0: "Isomap", 1: "LandmarkIsomap"}
+
+
+def a_line(j):
+    return "A %d %d %d %d %d %s" % (j["api_method"], j["method"], j["k"], j["dim"], len(j["pts"]),
+                                    " ".join(str(x) for p in j["pts"] for x in p[:j["dim"]]))
+
+
+def api_ok(ri):
+    return (not crashed(ri)) and ri[:3] == ["A", "ok", "0"]
+
+
+def api_jobs_from(bases, per_base=2):
+    """Isomap / Landmark Isomap jobs from point sets: the library accepts 3 <= k < N"""
+    jobs = []
+    for i, b in enumerate(bases):
+        N = len(b["pts"])
+        if N < 5:
+            continue
+        k = max(3, min(b["k"], N - 1))
+        for t in range(per_base):
+            jobs.append({"kind": "api", "dim": b["dim"], "pts": b["pts"], "k": k, "method": (i + t) % 3,
+                         "api_method": t % 2})
+    return jobs
+
+
+def api_eval(ctx, api, mexe, jobs, stats, stop_after=None):
+    """Runs the public-API driver on jobs.  A failure (exception / non-finite / abort) is a violation of C03 when
+    the same call with k = N-1 (complete graph: nothing can be unreachable) succeeds; otherwise it is recorded."""
+    if not jobs:
+        return 0
+    if mexe is not None:
+        kl = [m_line("K", j["k"], j["dim"], j["pts"]) for j in jobs]
+        for j, o in zip(jobs, run_model(ctx, mexe, kl)):
+            stats["api_k_graph_not_strong"] += (o[0] == "K" and o[2] == "0")
+    n = 0
+    for i in range(0, len(jobs), 200):
+        chunk = jobs[i:i + 200]
+        res = run_impl(ctx, api, [a_line(j) for j in chunk], timeout=600)
+        bad = [(j, ri) for j, ri in zip(chunk, res) if not skipped(ri) and not api_ok(ri)]
+        n += len(chunk)
+        stats["api_runs"] += sum(1 for ri in res if not skipped(ri))
+        if bad:
+            ctrl = [dict(j, k=len(j["pts"]) - 1) for j, _ in bad]
+            cres = run_impl(ctx, api, [a_line(j) for j in ctrl], timeout=600)
+            for (j, ri), cr in zip(bad, cres):
+                what = str(ri["crash"])[:300] if crashed(ri) else " ".join(ri)[:300]
+                if api_ok(cr):
+                    ctx.violation(dict(j), "%s (public API, check_connectivity = true, %s neighbours, k = %d) fails "
+                                  "or returns non-finite values: %s ; the same call with k = N-1 succeeds, so the "
+                                  "failure comes from samples that are mutually unreachable in the graph the method "
+                                  "walks" % (API_METHODS[j["api_method"]], METHODS[j["method"]], j["k"], what),
+                                  signature=SIG_F3)
+                    stats["api_violations"] += 1
+                else:
+                    stats["api_other_failures"] += 1
+                    ctx.note("public API failure not attributable to connectivity (k = N-1 fails too): %s k=%d: %s"
+                             % (API_METHODS[j["api_method"]], j["k"], what))
+        if stop_after is not None and stats["api_violations"] >= stop_after:
+            break
+    return n
+
+
+def shrink_api(ctx, api, case):
+    def fails(pts):
+        if len(pts) < 5:
+            return False
+        j = dict(case, pts=pts)
+        r = run_impl(ctx, api, [a_line(j), a_line(dict(j, k=len(pts) - 1))], timeout=120)
+        return (not skipped(r[0])) and (not api_ok(r[0])) and api_ok(r[1])
+    pts = [tuple(p) for p in case["pts"]]
+    if not fails(pts):
+        return case
+    return dict(case, pts=vlib.shrink_list(pts, fails, max_steps=150))
+
+
+def api_search(ctx, api, mexe, stats, rng, budget):
+    """search phase through the public API alone (used when the internal harness does not build): clustered /
+    chain / outlier point sets with small k, and the small 1-D lattice sets whose exact 3-graph is not strongly
+    connected according to the extracted model"""
+    bases = []
+    pk = ["clusters", "clusters", "chain", "chain", "outliers", "geometric", "uniform"]
+    while len(bases) < budget:
+        kind = rng.choice(pk)
+        dim = rng.choice([1, 1, 2])
+        N = rng.choice([6, 8, 9, 12, 16, 24, 40])
+        pts = gen_points(rng, kind, N, dim)
+        if pts is None or len(set(pts)) != len(pts):
+            continue
+        bases.append({"dim": dim, "pts": pts, "k": rng.choice([3, 3, 3, 4, 5])})
+    n = api_eval(ctx, api, mexe, api_jobs_from(bases), stats, stop_after=3)
+    if not ctx.has_violation() and mexe is not None:
+        cand = [(3, pts) for pts in small_sets(max_pts=9, top=12, min_pts=5)]
+        mo = run_model(ctx, mexe, [m_line("K", k, 1, pts) for k, pts in cand])
+        guided = [c for c, o in zip(cand, mo) if o[0] == "K" and o[2] == "0"]
+        jobs = [{"kind": "api", "dim": 1, "pts": pts, "k": k, "method": i % 3, "api_method": i % 2}
+                for i, (k, pts) in enumerate(guided[:4 * budget])]
+        n += api_eval(ctx, api, mexe, jobs, stats, stop_after=3)
+    return n
+
+
+def build_or_error(ctx, src, kw):
+    try:
+        return ctx.cpp(src, **kw), None
+    except vlib.BuildError as ex:
+        return None, str(ex)
+
+
+API_BUILD = dict(name="c03_api", sanitize=False, extra=["-O0"], timeout=1200)
+
 # ----------------------------------------------------------------------------- entry points
 def new_stats():
     return {k: 0 for k in ("graphs", "strong", "first_not_strong", "spec_fail_graph", "graph_perms", "point_runs",
                            "raised", "spec_fail_points", "point_perms", "model_shipped_differs",
-                           "geodesic_matrices", "isomap_runs", "isomap_not_ok", "graphs_ragged", "recursion_replays", "edge_set_comparisons",
+                           "geodesic_matrices", "isomap_runs", "isomap_not_ok", "graphs_ragged", "api_runs", "api_k_graph_not_strong",
+                           "api_violations", "api_other_failures", "recursion_replays", "edge_set_comparisons",
                            "method_set_comparisons")}
 
 
@@ -783,12 +901,35 @@ def corpus_cases(ctx):
 def run(ctx):
     rng = ctx.rng
     quick = ctx.quick
-    ctx.coq()
-    exe = ctx.cpp("harness/c03.cpp")
-    mexe = ctx.extract()
     stats = new_stats()
-    hist = {"corpus": 0, "graph_exhaustive": 0, "graph_random": {}, "points": {}, "malformed": 0}
+    hist = {"corpus": 0, "graph_exhaustive": 0, "graph_random": {}, "points": {}, "malformed": 0, "api": 0}
     n = 0
+    # the two C++ translation units compile in parallel with the Coq build
+    with concurrent.futures.ThreadPoolExecutor(max_workers=2) as pool:
+        f_int = pool.submit(build_or_error, ctx, "harness/c03.cpp", {})
+        f_api = pool.submit(build_or_error, ctx, "harness/c03_api.cpp", API_BUILD)
+        ctx.coq()
+        mexe = ctx.extract()
+        exe, err_int = f_int.result()
+        api, err_api = f_api.result()
+    if err_api:
+        ctx.unshown("the public-API driver harness/c03_api.cpp no longer builds against the current tree: "
+                    + err_api[-800:])
+    if err_int:
+        # internal signatures changed: the correspondence is no longer shown; search through the public API
+        ctx.unshown("harness/c03.cpp (internal routines is_connected / find_neighbors / "
+                    "compute_shortest_distances_matrix) no longer builds against the current tree: " + err_int[-800:])
+        if api is not None:
+            cg, cb, ncorp = corpus_cases(ctx)
+            hist["corpus"] = ncorp
+            n += api_eval(ctx, api, mexe, api_jobs_from(cb), stats)
+            n += api_search(ctx, api, mexe, stats, rng, 150 if quick else 1500)
+            for idx, (case, why) in enumerate(list(ctx._violations[:2])):
+                if case.get("kind") == "api" and len(case["pts"]) > 6:
+                    ctx._violations[idx] = (shrink_api(ctx, api, case), why)
+        hist["api"] = stats["api_runs"]
+        finish(ctx, n, stats, hist, [], [], [])
+        return
 
     # ---- corpus first
     cg, cb, ncorp = corpus_cases(ctx)
@@ -822,7 +963,7 @@ def run(ctx):
         n += eval_graphs(ctx, exe, mexe, small[i:i + 20000], stats,
                          with_perm_rng=rng if i == 0 else None)
     rnd = []
-    nrand = 700 if quick else 6000
+    nrand = 700 if quick else 3000
     kinds = ["uniform", "knnlike", "oneway", "oneway", "cycle", "outlier",
              "ragged_uniform", "ragged_knnlike", "ragged_oneway", "ragged_cycle"]
     while len(rnd) < nrand:
@@ -840,12 +981,12 @@ def run(ctx):
     ctx.note("t=%.0fs after explicit graphs" % ctx.elapsed())
     # ---- find_neighbors on tie-free point sets, all methods, permutations
     bases = []
-    nbase = 70 if quick else 500
+    nbase = 70 if quick else 240
     pk = ["uniform", "clusters", "clusters", "chain", "chain", "outliers", "geometric"]
     while len(bases) < nbase:
         kind = rng.choice(pk)
         dim = rng.choice([1, 1, 2])
-        N = rng.choice([4, 5, 6, 8, 9, 12, 16, 24, 40] + ([64] if quick else [64, 100, 150]))
+        N = rng.choice([4, 5, 6, 8, 9, 12, 16, 24, 40] + ([64] if quick else [64, 64, 100]))
         if kind == "geometric":
             N = min(N, 24)
         k = rng.choice([1, 2, 3, 3, 3, 4, 5, 7, N // 2, N - 1, N + 2])
@@ -858,6 +999,13 @@ def run(ctx):
     for i in range(0, len(bases), 60):
         n += eval_points(ctx, exe, mexe, bases[i:i + 60], rng, stats, nperm=2)
 
+    if api is not None:
+        napi = 60 if quick else 400
+        n += api_eval(ctx, api, mexe, api_jobs_from([b for b in cb if b["tie_free"]] + bases[:napi]), stats)
+        hist["api"] = stats["api_runs"]
+        for idx, (case, why) in enumerate(list(ctx._violations[:3])):
+            if case.get("kind") == "api" and len(case["pts"]) > 6:
+                ctx._violations[idx] = (shrink_api(ctx, api, case), why)
     ctx.note("t=%.0fs after point sets" % ctx.elapsed())
     # ---- end to end (thorough tier; tapkee.hpp takes minutes to compile): the real Isomap on the same data
     if not quick:
@@ -914,7 +1062,10 @@ def finish(ctx, n, stats, hist, small, rnd, bases):
              "distinct by hash of (N, k, lists). (b) tie-free integer point sets in 1-D and 2-D/L1 (uniform, "
              "clusters of unequal size and density, sparse chain into dense cluster, far outliers, geometric "
              "gaps), k in 1..N+2, each through brute/vptree/covertree and in 3 sample orders. (c) 1-D sets of "
-             "<= 9 points from 0..12, k = 1..3, both orders, model-guided order. Seeded by VERIF_SEED.",
+             "<= 9 points from 0..12, k = 1..3, both orders, model-guided order. (d) public API: Isomap / Landmark "
+             "Isomap (check_connectivity on, k = max(3, min(k, N-1)), methods rotating) on the first point sets of "
+             "(b) and the corpus; api_k_graph_not_strong counts those whose exact requested-k graph is not strongly "
+             "connected. Seeded by VERIF_SEED.",
         samples=[{"N": g[0], "k": g[1], "rows": g[2]} for g in rnd[:3]] +
                 [{"dim": b["dim"], "k": b["k"], "pts": b["pts"][:10]} for b in bases[:3]],
         histogram={"generators": hist, "stats": stats},
@@ -927,10 +1078,11 @@ def finish(ctx, n, stats, hist, small, rnd, bases):
 
 
 def replay(ctx, case):
-    exe = ctx.cpp("harness/c03.cpp")
-    mexe = ctx.extract()
     stats = new_stats()
     kind = case.get("kind")
+    if kind != "api":
+        exe = ctx.cpp("harness/c03.cpp")
+        mexe = ctx.extract()
     if kind in ("graph", "graph_pair"):
         gs = [(case["N"], case["k"], case["rows"])]
         if case.get("perm"):
@@ -964,6 +1116,14 @@ def replay(ctx, case):
         if os.environ.get("VERIF_C03_EMBED", "1") == "1":
             t = confirm_with_isomap(ctx, dict(case, pts=pts), stats)
             print(t)
+    elif kind == "api":
+        api = ctx.cpp("harness/c03_api.cpp", **API_BUILD)
+        j = dict(case, pts=[tuple(p) for p in case["pts"]])
+        r = run_impl(ctx, api, [a_line(j), a_line(dict(j, k=len(j["pts"]) - 1))], timeout=300)
+        for lab, ri in zip(("requested k = %d" % j["k"], "k = N-1"), r):
+            print("%s %s neighbours, %s: %s" % (API_METHODS[j["api_method"]], METHODS[j["method"]], lab,
+                                                ri if crashed(ri) else " ".join(ri)))
+        api_eval(ctx, api, None, [j], stats)
     else:
         print("unknown case kind")
         return 3
